@@ -416,6 +416,9 @@ func init() {
 		}
 		if n, ok := concreteLen(p); ok {
 			// HasPrefix(s, concrete prefix of length n)
+			if m, sok := concreteLen(s); sok && m < n {
+				return False()
+			}
 			cs := []*Term{Cmp(">=", c.sliceLen(s), c.idx(int64(n)), true)}
 			for k := 0; k < n; k++ {
 				a, b := elemAt(c, st, s, c.idx(int64(k))), elemAt(c, st, p, c.idx(int64(k)))
@@ -430,6 +433,9 @@ func init() {
 		if n, ok := concreteLen(s); ok {
 			// HasPrefix(concrete s of length n, symbolic prefix): len(prefix) <= n and it agrees with s on its length
 			pl := c.sliceLen(p)
+			if m, pok := concreteLen(p); pok && m > n {
+				return False()
+			}
 			cs := []*Term{Cmp("<=", pl, c.idx(int64(n)), true)}
 			for k := 0; k < n; k++ {
 				a, b := elemAt(c, st, s, c.idx(int64(k))), elemAt(c, st, p, c.idx(int64(k)))
